@@ -6,7 +6,8 @@ from common import q, z, coq_list, coq_str, coq_opt
 import oscgen as G
 
 PDG_H = [211, -211, 111, 321, -321, 2212, -2212, 2112, 22, 130, 310, 3122, 12, -14, 16, 11, -13, 9999999, 0, 523,
-         1000010020, -1000010020, 1000020040, 2212, 211]
+         1000010020, -1000010020, 1000020040, 2212, 211,
+         -111, 221, -221, -333, 333]      # illegal antiparticle codes of self-conjugate mesons: not valid although |pdg| is
 PDG_P = [21, 1, -1, 2, -2, 3, -3, 4, 5, -5, 22, 21, 6, 12, 9999999]
 MASSLESS = {22, 21, 12, -12, 14, -14, 16, -16, 18, -18}
 
